@@ -252,6 +252,15 @@ func ubjDocFamilies(sc docScope, run docBody) []engine.Family {
 			}
 			mkDoc(x, codecUBJSON, "ubj-marker-lengths", fmt.Sprintf("marker-valued-length:%d", L), doc, model.Complete, run)
 		}},
+		{Name: "ubj-noop-insertions", Arity: []int{gen.UBJTreeRootArity(), 3}, Body: func(x *engine.Exec) {
+			// a no-op marker inserted at EVERY byte position of every 3-node document (plain, counted and typed containers):
+			// in front of values it is skipped and not counted, in front of field names and inside headers it is malformed,
+			// inside payloads it is data - the reference decides, the parser must agree
+			doc := gen.UBJTree(x, 3, 3)
+			p := x.Choose(len(doc) + 1)
+			ins := cat2(doc[:p], []byte{'N'}, doc[p:])
+			mkDoc(x, codecUBJSON, "ubj-noop-insertions", "noop-inserted", ins, anyStatus, run)
+		}},
 		{Name: "ubj-deep", Body: func(x *engine.Exec) {
 			n := []int{31, 32, 33, 40}[x.Choose(4)]
 			var doc []byte
@@ -472,8 +481,8 @@ func init() {
 		})
 		engine.Register(&engine.Check{
 			ID: "C06", Level: "exploration",
-			Rule:        "all UBJSON values of the grammar up to N nodes (plain, counted, typed containers over up to 15 element types incl. containers of containers, no-ops in plain arrays), every scalar marker with boundary payloads, every length marker for strings/H, typed containers followed by siblings, nesting to 40; parsed by the real parser and compared with the reference decoder refubj; distinct by bytes, non-trivial = more than one byte",
-			Assumptions: []string{"refubj implements UBJSON draft 12; no-ops inside counted/typed containers and inside objects are not generated (draft unclear)", "char is mapped to the integer of its byte, H to its string (library data model)"},
+			Rule:        "all UBJSON values of the grammar up to N nodes (plain, counted, typed containers over up to 15 element types incl. containers of containers, no-ops in plain arrays; a no-op inserted at every byte position of every 3-node document), every scalar marker with boundary payloads, every length marker for strings/H, typed containers followed by siblings, nesting to 40; parsed by the real parser and compared with the reference decoder refubj; distinct by bytes, non-trivial = more than one byte",
+			Assumptions: []string{"refubj implements UBJSON draft 12; a no-op is skipped (and not counted) wherever a value may start - top level, array elements, object member values, plain and counted containers - and is malformed where a field name or a header field is expected", "char is mapped to the integer of its byte, H to its string (library data model)"},
 			Families:    func(tier string) []engine.Family { return ubjDocFamilies(conformScope(tier), conformBody) },
 			Require:     []string{"values_compared"},
 		})
